@@ -12,6 +12,8 @@ From RV Require Import Base.PyNum Timing.Snapper Timing.Snap Timing.TimingMap Ti
   Formats.BMSText Formats.BMS Formats.BMSSpec Timing.Domain Timing.Domain2 Generated.Tables Proofs.BMSProofs Proofs.BMSWriteProofs
   Proofs.BMSWriteLaneProofs Proofs.BMSWriteFinalProofs Proofs.BMSRoundTripProofs Proofs.BMSWriteAnyOrderProofs Proofs.BMSWriteGuardsProofs.
 From Coq Require Import Sorting.Permutation.
+From RV Require Import Formats.BMSGuards Formats.Timeline Proofs.BMSParseProofs Proofs.BMSWriteReadChartProofs Proofs.BMSTimelineProofs.
+Open Scope Z_scope.
 Import ListNotations.
 Open Scope Z_scope.
 
@@ -299,3 +301,77 @@ Theorem C05_bms_write_read_guarded : forall (mk : Z) (lay : layout) (dflt : text
     /\ forall c', text_domb lay (map (render_with r) ls) = true ->
                   bms_read tbl lay mk (map (render_with r) ls) = Some c' -> read_back tbl dflt c l c'.
 Proof. exact (bms_write_read_guarded tbl C05_table_ok). Qed.
+
+(* ======================================================================================================================
+   Reading back with chart-level hypotheses only (Proofs/BMSWrittenTextProofs.v, BMSWriteReadChartProofs.v).
+   header_guards (Formats/BMSGuards.v, decidable on the chart): title / artist / level / misc values / sample file names not
+   empty and not ending in a blank; misc keys pairwise distinct, upper case, none of TITLE / ARTIST / BPM / PLAYLEVEL, not
+   starting with WAV or BPM; sample ids pairwise distinct and upper case.
+   C05_written_text_dom: for every chart of write_dom_any with header_guards, the written text lies in the reader's
+   text-level domain (text_dom) and all its tempo objects sit on measure lines (bms_tempo_on_lines).
+   C05_bms_write_read_chart: hence BMSMap.read(BMSMap.write(c)) RETURNS and is c: hits and holds as multisets (column and
+   sample exactly, times within 1/192 beat and exact on the grid), title / artist / level / LNOBJ / WAV table exactly, tempo
+   list = the tempo rows in time order (time by value, tempo exactly, metronome 4).
+   Which guards reflect a real loss of the writer/reader pair: C05_round_trip_refuted_title_blank (a title ending in a blank
+   comes back without it: BMSMap.read strips every line) and C05_round_trip_refuted_misc_wav (a misc key starting with WAV is
+   filed by the reader under its sample table and disappears from misc); both replayed on the real code.  The other clauses
+   (non-empty values, upper-case keys, BPM-prefixed misc keys) are demanded by C04's text-level domain, not by the code: the
+   real pair reads such files back unchanged (checked by hand).
+   ====================================================================================================================== *)
+Theorem C05_written_text_dom : forall (mk : Z) (lay : layout) (dflt : text) (c : wchart) (r : Q -> text) (ls : list wline),
+  write_dom_any tbl mk lay dflt c = true -> header_guards c = true ->
+  (forall q, parse_decimal (r q) <> None) -> (forall q, text_end_ok (r q) = true) ->
+  bms_write tbl lay dflt c = Some ls ->
+  text_dom lay (map (render_with r) ls) /\ bms_tempo_on_lines (map (render_with r) ls) = true.
+Proof. exact (written_text_dom tbl C05_table_ok). Qed.
+Theorem C05_bms_write_read_chart : forall (mk : Z) (lay : layout) (dflt : text) (c : wchart) (r : Q -> text),
+  write_dom_any tbl mk lay dflt c = true -> header_guards c = true ->
+  (forall q, parse_decimal (r q) <> None) -> (forall q, text_end_ok (r q) = true) ->
+  exists ls l d c', bms_write tbl lay dflt c = Some ls /\ wscript tbl c = Some l
+    /\ bms_denote lay (map (render_with r) ls) = Some d /\ written_denotes_any tbl dflt c l d
+    /\ bms_read tbl lay mk (map (render_with r) ls) = Some c' /\ read_back tbl dflt c l c'
+    /\ Forall2 (fun b b' => (bo_off b' == bo_off b)%Q /\ bo_bpm b' = bo_bpm b /\ bo_met b' = 4%Q) (sort_by bco_lt (w_bpms c)) (c_bpms c').
+Proof. exact (bms_write_read_chart tbl C05_table_ok). Qed.
+
+Definition w_title_blank : wchart := mkW (w_hits w_good) (w_holds w_good) (w_bpms w_good) (w_samples w_good) (w_lnobj w_good) [116;32] (w_artist w_good) (w_version w_good) (w_misc w_good).
+Definition w_misc_wave : wchart := mkW (w_hits w_good) (w_holds w_good) (w_bpms w_good) (w_samples w_good) (w_lnobj w_good) (w_title w_good) (w_artist w_good) (w_version w_good) [([87;65;86;69], [120])].
+Theorem C05_round_trip_refuted_title_blank :
+  exists c ls c', write_dom_any tbl Tables.bms.max_keys lay_BME DFLT c = true /\ header_guards c = false
+    /\ bms_write tbl lay_BME DFLT c = Some ls /\ bms_read tbl lay_BME Tables.bms.max_keys (map render_wline ls) = Some c'
+    /\ w_title c = [116; 32] /\ m_title (c_meta c') = [116].
+Proof.
+  exists w_title_blank. eexists. eexists. split; [vm_compute; reflexivity|]. split; [vm_compute; reflexivity|].
+  split; [vm_compute; reflexivity|]. split; [vm_compute; reflexivity|]. split; vm_compute; reflexivity.
+Qed.
+Theorem C05_round_trip_refuted_misc_wav :
+  exists c ls c', write_dom_any tbl Tables.bms.max_keys lay_BME DFLT c = true /\ header_guards c = false
+    /\ bms_write tbl lay_BME DFLT c = Some ls /\ bms_read tbl lay_BME Tables.bms.max_keys (map render_wline ls) = Some c'
+    /\ w_misc c = [([87;65;86;69], [120])]
+    /\ existsb (fun kv => text_eqb (fst kv) [87;65;86;69]) (m_misc (c_meta c')) = false
+    /\ existsb (fun kv => text_eqb (fst kv) [86;69] && text_eqb (snd kv) [120]) (m_samples (c_meta c')) = true.
+Proof.
+  exists w_misc_wave. eexists. eexists. split; [vm_compute; reflexivity|]. split; [vm_compute; reflexivity|].
+  split; [vm_compute; reflexivity|]. split; [vm_compute; reflexivity|]. split; [vm_compute; reflexivity|]. split; vm_compute; reflexivity.
+Qed.
+Example C05_header_guards_nonvacuous :
+  header_guards w_good && header_guards w_three && write_dom_any tbl Tables.bms.max_keys lay_PMS DFLT w_three
+  && forallb (fun q => text_end_ok (fmt_fixed 7 q)) [120%Q; 150%Q; 100%Q] = true.
+Proof. vm_compute. reflexivity. Qed.
+
+(* ======================================================================================================================
+   For C09 (Proofs/BMSTimelineProofs.v): C05's bound as TIMELINE closeness (Formats/Timeline.v).  tl_of_wchart c = the chart's
+   notes and its tempo points in time order; the timeline the written file denotes is close to it with every time within
+   res_of FBms = 1/192 beat at the local tempo (bl_near over the chart's own tempo points), tempo points exactly.
+   ====================================================================================================================== *)
+Theorem C05_bms_write_timeline : forall (mk : Z) (lay : layout) (dflt : text) (c : wchart) (r : Q -> text),
+  write_dom tbl mk lay dflt c = true -> (forall q, parse_decimal (r q) <> None) ->
+  exists ls l d, bms_write tbl lay dflt c = Some ls /\ wscript tbl c = Some l
+    /\ bms_denote lay (map (render_with r) ls) = Some d /\ written_denotes tbl dflt c l d
+    /\ timeline_close_by (res_of FBms (tl_tempo (tl_of_wchart c))) 0 (tl_of_bms d) (tl_of_wchart c).
+Proof. exact (bms_write_timeline tbl C05_table_ok). Qed.
+Theorem C05_bms_write_timeline_any_order : forall (mk : Z) (lay : layout) (dflt : text) (c : wchart) (r : Q -> text),
+  write_dom_any tbl mk lay dflt c = true -> (forall q, parse_decimal (r q) <> None) ->
+  exists ls l d, bms_write tbl lay dflt c = Some ls /\ wscript tbl c = Some l
+    /\ bms_denote lay (map (render_with r) ls) = Some d /\ written_denotes_any tbl dflt c l d
+    /\ timeline_close_by (res_of FBms (tl_tempo (tl_of_wchart c))) 0 (tl_of_bms d) (tl_of_wchart c).
+Proof. exact (bms_write_timeline_any_order tbl C05_table_ok). Qed.
